@@ -173,7 +173,19 @@ func (c *FnCtx) callStatic(fr *Frame, st *State, callee *ssa.Function, args []SV
 			continue
 		}
 		if sl, ok := at.Underlying().(*types.Slice); ok {
-			c.addLoc(ms, "elem$"+typeKey(sl.Elem()), sl.Elem(), true, 0)
+			if sv, isSl := a.(Sl); isSl && structOf(sl.Elem()) == nil {
+				// the dependency may write the backing array it was handed, nothing else
+				prefix := "elem$" + typeKey(sl.Elem())
+				c.noFrame++
+				for _, lf := range c.leaves(sl.Elem()) {
+					name := prefix + lf.Suffix
+					h := c.heapGet(st, name, c.heapSort(lf.Sort, true))
+					c.heapSet(st, name, c.vc.Name("h", Store(h, sv.Arr, c.vc.Fresh("ext$elems", SArr(SInt, lf.Sort)))))
+				}
+				c.noFrame--
+			} else {
+				c.addLoc(ms, "elem$"+typeKey(sl.Elem()), sl.Elem(), true, 0)
+			}
 		}
 		if p, ok := at.Underlying().(*types.Pointer); ok && structOf(p.Elem()) == nil {
 			c.addLoc(ms, "cell$"+typeKey(p.Elem()), p.Elem(), false, 0)
@@ -396,7 +408,13 @@ func (c *FnCtx) useContract(fr *Frame, st *State, ct *FuncContract, callee *ssa.
 			if r.Label != "" {
 				lbl += ":" + r.Label
 			}
-			c.addObl("pre@"+lbl, "", r.Props, st, g, r)
+			if c.assumedPre(fr, lbl) {
+				// `attr assume-pre Callee:label`: a nil-safety precondition that depends on the
+				// caller's history is taken as an assumption of this function (listed in evidence)
+				c.trusted["assumed precondition (attr assume-pre, not proved at the call): "+lbl+" in "+fr.fn.Name()] = true
+			} else {
+				c.addObl("pre@"+lbl, "", r.Props, st, g, r)
+			}
 		}
 		st.pc = c.vc.Name("pc", And(st.pc, g))
 	}
@@ -1269,4 +1287,16 @@ func smallEnough(fn *ssa.Function, depth int) bool {
 		}
 	}
 	return n <= 80
+}
+
+func (c *FnCtx) assumedPre(fr *Frame, lbl string) bool {
+	if fr == nil || fr.contract == nil {
+		return false
+	}
+	for _, a := range strings.Fields(strings.ReplaceAll(fr.contract.Attrs["assume-pre"], ",", " ")) {
+		if a == lbl {
+			return true
+		}
+	}
+	return false
 }
